@@ -245,6 +245,46 @@ theorem forced_ids_once (s : CState) (recv : String) (ids : List Nat) (acc ps : 
           obtain ⟨q, hq, hqs⟩ := List.mem_map.mp ha
           exact List.any_eq_true.mpr ⟨q, hq, by simp [hqs]⟩
 
+/-- the packets an admin-forced selection loads all belong to the receiver it was loaded for -/
+theorem loadPacketsAux_receiver (s : CState) (recv : String) (ids : List Nat) (acc ps : List Packet)
+    (hacc : ∀ p ∈ acc, p.receiver = recv) (h : loadPacketsAux s recv ids acc = .ok ps) :
+    ∀ p ∈ ps, p.receiver = recv := by
+  induction ids generalizing acc with
+  | nil => simp [loadPacketsAux] at h; subst h; exact hacc
+  | cons id rest ih =>
+    simp only [loadPacketsAux] at h
+    split at h
+    · exact ih acc hacc h
+    · split at h
+      · cases h
+      · rename_i p hp
+        split at h
+        · cases h
+        · rename_i hr
+          apply ih (acc ++ [p]) ?_ h
+          intro q hq
+          simp only [List.mem_append, List.mem_singleton] at hq
+          rcases hq with hq | hq
+          · exact hacc q hq
+          · subst hq; simpa using hr
+
+/-- **same receiver, forced or not.**  Whatever a successful recovery re-sends — the refundable packets it found itself
+or the packets the admin selected — every one of them was addressed to the receiver the sum is re-sent to (the receiver
+named in the message, the staker when none is named): a recovery never redirects somebody's transfer to somebody else -/
+theorem recover_same_receiver (s s' : CState) (env : Env) (info : Info) (sel : Option (List Nat)) (rc : Option String)
+    (pg : Bool) (out : List SubMsg) (h : recover s env info sel rc pg = .ok (s', out)) :
+    ∃ recv packets denom total id,
+      recoverReceiver s.config rc = .ok recv ∧ selectPackets s recv sel pg = .ok packets
+      ∧ out = [transferSub s env id recv ⟨denom, total⟩] ∧ ∀ p ∈ packets, p.receiver = recv := by
+  obtain ⟨recv, packets, denom, total, id, hr, hsel, _, _, _, hout, _, _, _, _, _, hnone⟩ :=
+    recover_spec s s' env info sel rc pg out h
+  refine ⟨recv, packets, denom, total, id, hr, hsel, hout, ?_⟩
+  cases sel with
+  | none => exact fun p hp => (hnone rfl p hp).1
+  | some ids =>
+    simp only [selectPackets, loadPackets] at hsel
+    exact loadPacketsAux_receiver s recv ids [] packets (by simp) hsel
+
 /-- transfers still in flight can never be re-sent by non-admins -/
 theorem recover_nonadmin_no_inflight (s s' : CState) (env : Env) (info : Info) (sel : Option (List Nat))
     (rc : Option String) (pg : Bool) (out : List SubMsg) (hna : s.admin ≠ some info.sender)
